@@ -573,6 +573,9 @@ func (o *operation) handle() {
 	if requireMessageForRequestLine {
 		// Go ahead and process first request message
 		switch err := o.readRequestMessage(nil, o.request.Body, &reqMsg); {
+		case errors.Is(err, io.EOF) && o.missingRequestMessage():
+			o.reportError(malformedRequestError(errMissingRequestMessage))
+			return
 		case errors.Is(err, io.EOF):
 			// okay for the first message: means empty message data
 			if reqMsg.buf == nil {
@@ -693,6 +696,16 @@ func (o *operation) extraResponseMessage() bool {
 }
 
 var errExtraRequestMessage = errors.New("method takes a single request message, but the client sent another one")
+
+var errMissingRequestMessage = errors.New("method takes a single request message, but the client sent none")
+
+// missingRequestMessage is the counterpart of extraRequestMessage: a client
+// that frames its messages ended its stream without any, the method takes
+// exactly one, and the server's protocol has no envelopes - so the server
+// would read an empty body, which it takes for a message nobody sent.
+func (o *operation) missingRequestMessage() bool {
+	return o.clientEnveloper != nil && o.extraRequestMessage()
+}
 
 // extraRequestMessage reports whether a second request message is an error
 // that must be caught here: the method takes exactly one, and the server's
@@ -1016,6 +1029,12 @@ func (r *envelopingReader) prepareNext() error {
 	default: // clientEnveloper != nil
 		var envBytes envelopeBytes
 		_, err := io.ReadFull(r.r, envBytes[:])
+		if errors.Is(err, io.EOF) && r.current == nil && r.rw.op.missingRequestMessage() {
+			// the stream ends before its first (and only) message
+			err = malformedRequestError(errMissingRequestMessage)
+			r.rw.reportError(err)
+			return err
+		}
 		if err != nil {
 			return err
 		}
@@ -1131,6 +1150,11 @@ func (r *transformingReader) Read(data []byte) (n int, err error) {
 				(r.rw.op.clientReqNeedsPrep || r.rw.op.clientEnveloper == nil) {
 				r.msg.markReady()
 			} else {
+				if !r.consumedFirst && errors.Is(err, io.EOF) && r.rw.op.missingRequestMessage() {
+					// the stream ends before its first (and only) message
+					err = malformedRequestError(errMissingRequestMessage)
+					r.rw.reportError(err)
+				}
 				r.err = err
 				return 0, err
 			}
